@@ -159,6 +159,11 @@ impl<'a> G<'a> {
         readable.extend(globals.iter().cloned());
         let mut assigned_locals: Vec<Name> = Vec::new();
         let mut out = Vec::new();
+        if self.rng.chance(1, 10) {
+            // a function without a body: a call of it is still a call (it yields mysterious, and when it has
+            // ended there is no pronoun referent)
+            return out;
+        }
         if self.rng.chance(1, 6) {
             // a pronoun before the body names anything: the variable the caller named last
             let it = Expr::Prim(Prim::Ident(Ident::Pronoun));
@@ -510,7 +515,7 @@ pub fn collision_program(rng: &mut Rng) -> Program {
         simple(POOL[i])
     }
     fn arg(g: &G, rng: &mut Rng, depth: usize) -> Expr {
-        match rng.below(if depth == 0 { 5 } else { 3 }) {
+        match rng.below(if depth == 0 { 5 } else if depth >= 2 { 3 } else { 4 }) {
             0 | 1 => num(rng.range(1, 9) as f64),
             2 => var(&nm(pick(rng))),
             _ => Expr::Prim(call(g, rng, depth + 1)),
@@ -521,7 +526,8 @@ pub fn collision_program(rng: &mut Rng) -> Program {
         // mostly the arity of the global function of that name (what a shadowing parameter or a nested
         // definition then turns into a non-function call or an arity error)
         let n = if g.arity[i] > 0 && !rng.chance(1, 6) { g.arity[i] } else { rng.range(1, 2) };
-        Prim::Call(nm(i), (0..n).map(|_| arg(g, rng, depth)).collect())
+        // (a call swallows a following `,`: only the last argument may itself be a call)
+        Prim::Call(nm(i), (0..n).map(|k| arg(g, rng, if k + 1 == n { depth } else { 9 })).collect())
     }
     fn body(g: &G, rng: &mut Rng, nest: usize) -> Vec<Stmt> {
         let mut ss = Vec::new();
@@ -589,7 +595,8 @@ pub fn collision_program(rng: &mut Rng) -> Program {
             _ => {
                 // a call of one of the functions with the right number of arguments
                 let f = order[rng.below(nfuncs)];
-                let args = (0..g.arity[f]).map(|_| arg(&g, rng, 0)).collect();
+                let n = g.arity[f];
+                let args = (0..n).map(|k| arg(&g, rng, if k + 1 == n { 0 } else { 9 })).collect();
                 top.push(say(Expr::Prim(Prim::Call(nm(f), args))));
             }
         }
